@@ -196,22 +196,42 @@ def r19c(chk, rid='R19.c'):
 
 
 def r19d(chk, rid='R19.d'):
-    chk.rule(rid, 'path re-basing: Replacer leaves anything with a scheme, a host or a root-relative path untouched; the base directory is taken from the path component of the import href (urlsplit) - not from the whole URL - and joined with normpath')
+    chk.rule(rid, 'path re-basing, decided by evaluation: Replacer.__init__, extract_base and __call__ are evaluated on their syntax trees (posixpath, urllib.parse and pathname2url are used as they are) for @import hrefs in child, sibling and parent directories, root-relative, scheme-relative and absolute, and for URLs that are relative (plain, dotted, with query and fragment, with quoted and unquoted special characters), root-relative, scheme-relative, absolute or data: URLs: resolved from the combined sheet, the rewritten URL denotes the same absolute URL as the original did from the imported sheet; anything with a scheme, a host or a root-relative path is kept as it is')
+    import urllib.parse
+
+    from sa.absint import Evaluator, Raised, Record
+
     m = chk.repo.mod(INIT)
-    call = m.get('Replacer.__call__')
-    src = ast.unparse(call)
-    chk.ob(rid, INIT, 'Replacer.__call__', 'absolute, scheme-relative and root-relative URLs are kept', "if scheme or location or path.startswith('/'):" in src and 'return uri' in src, '', shape=True)
-    chk.ob(rid, INIT, 'Replacer.__call__', 'the URL is split with urlsplit before it is rebased', 'urllib.parse.urlsplit(uri)' in src, '', shape=True)
-    chk.ob(rid, INIT, 'Replacer.__call__', 'base and relative path are joined and normalised', 'os.path.normpath(os.path.join(self.base, path, filename))' in src, '', shape=True)
-    eb = m.get('Replacer.extract_base')
-    calls = [c for c in ast.walk(eb) if isinstance(c, ast.Call) and call_name(c) == 'urllib.parse.urlsplit']
-    ok = len(calls) == 1 and len(calls[0].args) == 1 and isinstance(calls[0].args[0], ast.Name) and calls[0].args[0].id == eb.args.args[0].arg
-    chk.ob(rid, INIT, 'Replacer.extract_base', 'the base is derived from the path component of the href', ok,
-           'for an absolute import href the scheme and host become part of the directory: relative URLs are rewritten to http%3A/host/...')
-    src = ast.unparse(eb)
-    chk.ob(rid, INIT, 'Replacer.extract_base', 'directory part of that path', 'os.path.split(raw_path)' in src and 'return base_path' in src, '', shape=True)
-    init = ast.unparse(m.get('Replacer.__init__'))
-    chk.ob(rid, INIT, 'Replacer.__init__', 'stores extract_base(base)', 'self.base = self.extract_base(base)' in init, '', shape=True)
+    init, call = m.get('Replacer.__init__'), m.get('Replacer.__call__')
+    root = 'http://host/css/site.css'
+    hrefs = ['x.css', 'sub/x.css', 'sub/deep/x.css', '../up/x.css', './x.css', '/abs/x.css', 'http://other/d/x.css', '//other/d/x.css']
+    urls = ['i.png', 'img/i.png', '../i.png', './a/../i.png', 'font.eot?#iefix', 'a.svg#frag', 'q.png?v=2', 'a b.png', 'a%20b.png', 'p%25q.png', '/root.png', '//cdn/x.png', 'http://o/x.png', 'data:image/png;base64,AA==', 'mailto:x@y']
+    n = 0
+    bad = []
+    for href in hrefs:
+        me = Record()
+        r0 = Evaluator(init, module=m, cls='Replacer').run(self=me, base=href)
+        if isinstance(r0, Raised):
+            raise AnalysisError(f'Replacer.__init__({href!r}): {r0!r}')
+        for url in urls:
+            got = Evaluator(call, module=m, cls='Replacer').run(self=me, uri=url)
+            n += 1
+            if isinstance(got, Raised) or not isinstance(got, str):
+                bad.append(f'Replacer({href!r})({url!r}) gives {got!r}')
+                continue
+            parts = urllib.parse.urlsplit(url)
+            want = urllib.parse.urljoin(urllib.parse.urljoin(root, href), url)
+            have = urllib.parse.urljoin(root, got)
+            if parts.scheme or parts.netloc or parts.path.startswith('/'):
+                href_abs = bool(urllib.parse.urlsplit(href).scheme or urllib.parse.urlsplit(href).netloc)
+                if got != url and not (href_abs and urllib.parse.unquote(want) == urllib.parse.unquote(have)):
+                    bad.append(f'Replacer({href!r})({url!r}) changes an absolute URL to {got!r}')
+            elif urllib.parse.unquote(want) != urllib.parse.unquote(have):
+                bad.append(f'Replacer({href!r})({url!r}) gives {got!r}: resolves to {have}, the original to {want}')
+    chk.extra['rebasing_cases'] = n
+    for b_ in bad[:3]:
+        chk.ob(rid, INIT, 'Replacer.__call__', 're-based URL denotes the same resource', False, b_)
+    chk.ob(rid, INIT, 'Replacer.__call__', f'all {n} (import href, URL) pairs keep their meaning', not bad, f'{len(bad)} pairs do not')
 
 
 def r19e(chk, rid='R19.e'):
